@@ -293,6 +293,26 @@ def _worker(job):
                                 if not C.profile_agrees(mp.gene_profile, exp):
                                     res["viol"].append(("construct_intron_profile:wrong-result",
                                                         repr((k_introns, blocks, delta)), "%s expected %s" % (mp.gene_profile, exp)))
+                            # tails: a known feature lying ENTIRELY beyond polyA + delta / ENTIRELY before polyT - delta is outside the molecule (-2),
+                            # every other feature keeps the mark it has without tails (a feature the read spans without matching stays absent)
+                            if mp is not None:
+                                for pa, pt in ((blocks[-1][1], -1), (-1, blocks[0][0]), (blocks[-1][1], blocks[0][0]), (blocks[-1][1] - 2, blocks[0][0] + 2)):
+                                    for nm, feats, fn in (("construct_intron_profile", k_introns, pc.construct_intron_profile),):
+                                        mt = _call(res, nm + "[tails]", fn, blocks, pa, pt)
+                                        if mt is None:
+                                            continue
+                                        exp_t = [-2 if ((pa != -1 and f[0] > pa + delta) or (pt != -1 and f[1] < pt - delta)) else mp.gene_profile[i_]
+                                                 for i_, f in enumerate(feats)]
+                                        nz = [i_ for i_, v in enumerate(exp_t) if v != 0]
+                                        rng_ = (nz[0], nz[-1] + 1) if nz else (len(exp_t), 0)
+                                        ok = list(mt.gene_profile) == exp_t and list(mt.read_profile) == list(mp.read_profile) and \
+                                            (tuple(mt.gene_profile_range) == rng_ or not nz)
+                                        C._rec(nm + "[tails]", ok, (feats, blocks, delta, pa, pt), mt.gene_profile)
+                                        res["tail_cases"] = res.get("tail_cases", 0) + 1
+                                        if not ok:
+                                            res["viol"].append((nm + ":tails:wrong-result", repr((feats, blocks, delta, "polyA", pa, "polyT", pt)),
+                                                                "%s range %s expected %s range %s (without tails: %s)" %
+                                                                (mt.gene_profile, mt.gene_profile_range, exp_t, rng_, mp.gene_profile)))
                     # exons (used for --count_exons)
                     if all(sum(1 for r in blocks if abs(f[0] - r[0]) <= delta and abs(f[1] - r[1]) <= delta) <= 1 for f in k_exons):
                         pc = lrp.OverlappingFeaturesProfileConstructor(k_exons, gene_region,
@@ -447,7 +467,7 @@ def run(chk, scratch):
     n_prof = 8 if thorough else 7
     chk.rule = ("exhaustive: all interval pairs over universe %d; all sorted disjoint (touching allowed) interval lists over universe %d "
                 "(x every position) ; all pairs of such lists over universe %d; all sets of <=%d distinct exons over universe %d for split_exons; "
-                "all pairs (known transcript, read) of non-touching exon lists over universe %d for isoform/read profiles (delta 0 and 1) (split-exon profiles also with the comparator the pipeline uses, minimal overlap 1, 2, 3, 5, over touching segments) and for the isoform profiles of the gene objects built from transcript models (GeneInfo.from_models / from_model, delta 0, 2, 6); "
+                "all pairs (known transcript, read) of non-touching exon lists over universe %d for isoform/read profiles (delta 0 and 1) (intron profiles also with polyA/polyT positions at and near the read's ends: only features entirely beyond a tail become 'outside'; split-exon profiles also with the comparator the pipeline uses, minimal overlap 1, 2, 3, 5, over touching segments) and for the isoform profiles of the gene objects built from transcript models (GeneInfo.from_models / from_model, delta 0, 2, 6); "
                 "plus random large instances and the repository's own tests run with the contracts on. "
                 "non-trivial = inputs with >=2 intervals in at least one argument") % (n_single, n_single, n_pair, k_split, n_split, n_prof)
     jobs = [("pairs", n_single)]
@@ -483,6 +503,7 @@ def run(chk, scratch):
             chk.note(n=res["cases"])
             nontriv += res["nontrivial"]
             chk.count("model_gene_isoform_profiles_checked", res.get("model_gene_profiles", 0))
+            chk.count("intron_profiles_with_tail_positions_checked", res.get("tail_cases", 0))
             chk.count("split_profiles_with_pipeline_comparator", res.get("split_profile_cases", 0))
             chk.count("profiles_built_from_command_line_options", res.get("option_profile_cases", 0))
             for k, v in res["counts"].items():
